@@ -771,3 +771,54 @@ mod tests {
         assert_eq!(*dropped.borrow(), &[1, 2, 3, 4]);
     }
 }
+
+// Verification hooks (compiled only with `--cfg mini_moka_verif`).
+#[cfg(mini_moka_verif)]
+impl<T> Deque<T> {
+    /// Structural walker: follows `next` from `head` (at most `len + 1` steps) and
+    /// checks that `prev` links are mutual, that the last node is `tail`, that the
+    /// number of nodes is `len` and that the cursor (if any) points to a member.
+    /// Returns the node pointers front to back and a description of the first
+    /// inconsistency found, if any.
+    pub(crate) fn verif_walk(&self) -> (Vec<NonNull<DeqNode<T>>>, Option<String>) {
+        let mut nodes = Vec::new();
+        let mut problem = None;
+        let mut prev: Option<NonNull<DeqNode<T>>> = None;
+        let mut cur = self.head;
+        while let Some(node) = cur {
+            if nodes.len() > self.len {
+                problem = Some(format!("more than len={} nodes reachable from head", self.len));
+                break;
+            }
+            let n = unsafe { node.as_ref() };
+            if n.prev != prev {
+                problem.get_or_insert_with(|| format!("prev link of node #{} is not mutual", nodes.len()));
+            }
+            nodes.push(node);
+            prev = Some(node);
+            cur = n.next;
+        }
+        if problem.is_none() {
+            if self.tail != prev {
+                problem = Some("tail is not the last node reachable from head".to_string());
+            } else if nodes.len() != self.len {
+                problem = Some(format!("len={} but {} nodes reachable", self.len, nodes.len()));
+            } else if let Some(DeqCursor::Node(c)) = self.cursor {
+                if !nodes.contains(&c) {
+                    problem = Some("cursor points to a non-member".to_string());
+                }
+            }
+        }
+        (nodes, problem)
+    }
+
+    pub(crate) fn verif_len(&self) -> usize {
+        self.len
+    }
+
+    /// # Safety
+    /// `node` must be a live node (e.g. one just returned by `verif_walk`).
+    pub(crate) unsafe fn verif_element<'a>(node: NonNull<DeqNode<T>>) -> &'a T {
+        &(*node.as_ptr()).element
+    }
+}
